@@ -190,6 +190,23 @@ CHECKS = {
               "constructors, the byte formats themselves (judged by laws), random operands beyond the fixed menus."),
         technique="TLA+/TLC: executable Curve model over BigNat re-evaluates every recorded library call (trace validation)",
     ),
+    "C13": dict(
+        category="exploration",
+        text=("Pairing.tla models the multi-pairing computation in discrete-logarithm form (cyclic groups of order r; Miller "
+              "loop consuming one term at a time, identity terms contributing the neutral element, final exponentiation) and "
+              "TLC checks bilinearity (result = sum a_i.b_i) and non-degeneracy for every list of pairs over the scalar menu "
+              "{0, 1, r-1, 2} of length 0..2 (quick) / 0..3 (thorough) plus lists of length 5..8 with identities in every "
+              "position pattern; a deliberately wrong variant (stop at the first identity term) is shown to violate the "
+              "invariant on every run. Every explored list is replayed into both engines (BLS12-381, BN254 dev curve): "
+              "product of single pairings, multi_miller_loop + final_exponentiation on prepared G2 points in both orders, "
+              "pairing_with from both sides; Pairing_Trace requires the logarithm of each result to the base e(g1, g2) to be "
+              "the specification's, single pairings to be neutral iff an argument is the identity, and the target group's "
+              "generator to have order r."),
+        design_ref="DESIGN.md 4/C13",
+        note=("Logarithms are found by search with the library's own Gt operations; Miller-loop / final-exponentiation numerics and "
+              "the Gt encoding are not re-derived; scalars limited to the menu."),
+        technique="TLA+/TLC model checking of the bilinear dlog model + replay of every explored list into both pairing engines, validated as traces",
+    ),
     "C14": dict(
         category="model_checking",
         text=("KzgMultiOpen (construct_intermediate_sets as a function of the query LIST, symbolic acceptance) is "
